@@ -181,7 +181,7 @@ let run (prop : string) (input : S.t) (observed : S.t) : S.t * string =
          if not o.acc then begin
            if S.to_string o.oview <> S.to_string !prev_view then add "fails:failed-load-changed-the-definitions";
            (match o.same with
-            | [a; b; c] ->
+            | a :: b :: c :: _ ->
               if not a then add "fails:failed-load-changed-the-printed-schema";
               if not b then add "fails:failed-load-changed-introspection";
               if not c then add "fails:failed-load-changed-responses"
@@ -193,7 +193,9 @@ let run (prop : string) (input : S.t) (observed : S.t) : S.t * string =
        | _ ->
          if macc <> o.acc then add (if macc then "fails:arrangement-refused" else "fails:arrangement-accepted:" ^ rules_s)
          else if macc && S.to_string o.oview <> S.to_string (s_view (Model.observe (snd (List.nth results idx)))) then
-           add "fails:arrangement-defines-a-different-schema");
+           add "fails:arrangement-defines-a-different-schema"
+         else if o.acc && (match o.same with [_; _; _; false] -> true | _ -> false) then
+           add "fails:arrangement-lists-the-types-in-another-order");
       prev_view := o.oview)
     (zip4 docs results befores obs);
   let verdict = match List.rev !fails with [] -> "holds" | f :: _ -> f in
